@@ -1356,9 +1356,10 @@ class PyFat(object):
             self.flush_fat()
 
         self.parse_root_dir()
+        # A volume label is not an 8.3 file name, it uses all 11 bytes
         vol_label_in_8_3 = EightDotThree(encoding=self.encoding)
-        vol_label_in_8_3.set_str_name(
-            EightDotThree.make_8dot3_name(label[:11], self.root_dir))
+        vol_label_in_8_3.set_byte_name(
+            label[:11].upper().ljust(11).encode(self.encoding))
         volume_file = FATDirectoryEntry.new(
             name=vol_label_in_8_3,
             tz=datetime.timezone.utc,
